@@ -173,6 +173,14 @@ def main():
                  'opts': {'id_col': 1}, 'delimiter': None,
                  'args': {'minibatch_size': MBv, 'subsampling': SSv, 'heuristic': 'Constant', 'target_ranking_only': 'True', 'data_source': 'ob-vw'}})
     meta.append((MBv, SSv, 2, 1030, 'Constant', nv, ['good'] * nv, nv // SSv))
+    # one tab-separated run (ob-raw-dump): cells may be empty anywhere, also in the last column - such rows are well-formed
+    MBt, nt = 1100, 2 * 1100 + 1040
+    tsv_lines = ['id\tf0\tf1\tlast\n']
+    for p_ in range(1, nt + 1):
+        tsv_lines.append(f'{p_}\t{"" if p_ % 6 == 0 else p_ % 3}\t{p_ % 5}\t{"" if p_ % 4 == 0 else p_ % 2}\n')
+    jobs.append({'op': 'run_stream', 'columns': ['id', 'f0', 'f1', 'last'], 'lines': tsv_lines, 'opts': {}, 'delimiter': '\t',
+                 'args': {'minibatch_size': MBt, 'subsampling': 1, 'heuristic': 'Constant', 'target_ranking_only': 'True', 'data_source': 'ob-raw-dump', 'label_column': 'last'}})
+    meta.append((MBt, 1, 2, 1040, 'Constant', nt, ['good'] * nt, nt))
     # repeated data blocks [A, A, B, A, B]: a pair's score is bit-identical in several batches and different in others
     MBr = 1100
     colsr = ['id', 'f0', 'f1', 'f2', 'label']
